@@ -159,7 +159,7 @@ SHAPES = ["plain", "sync_lit", "nonsync_lit", "lit_then_text", "two_lits", "long
 
 
 def _mk(shape, n1, p1, pay, n2):
-    payload = (PAY[pay] * 8)[:p1]
+    payload = (PAY[pay] * (p1 + 1))[:p1]
     if shape == 0:
         return RFm.Cmd([("text", b"a1 NOOP")])
     if shape == 1:
